@@ -87,16 +87,11 @@ func (s Shape) CalcStridesWithMask(mask []bool) []int {
 
 // CalcStridesColMajor is like CalcStrides, but assumes a col major layout
 func (s Shape) CalcStridesColMajor() []int {
-	if s.IsScalarEquiv() {
+	if s.IsScalar() {
 		return nil
 	}
 
 	retVal := BorrowInts(len(s))
-	if s.IsVector() {
-		retVal[0] = 1
-		retVal = retVal[:1]
-		return retVal
-	}
 
 	acc := 1
 	for i := 0; i < len(s); i++ {
